@@ -458,6 +458,11 @@ func scriptedStage(dir string, seed uint64, tier string) error {
 		scriptedCaseB(w, kind, true, 1, 13, []rdEv{{2, false, false}, {1, true, false}}, []int{cServe, cStatus, cServe}, fill(8, 5)) // ... then a healthy connection
 		scriptedCaseB(w, kind, true, 1, 13, nil, []int{cStatus}, fill(2, 4))                                                  // 503 without body on open: the callers refuse the status
 		scriptedCaseB(w, kind, true, 1, 13, []rdEv{{3, true, false}}, nil, fill(6, 7))
+		// a drop before the first byte was handed over (progress 0: no Range header), the re-connection answered 503 with a
+		// body of its own bytes / without one (seeded change C20-7: the status of a resumption tested only when progress != 0)
+		scriptedCaseB(w, kind, false, 2, 13, []rdEv{{0, true, false}}, []int{cServe, cStatus}, fill(6, 7))
+		scriptedCaseB(w, kind, false, 2, 13, []rdEv{{0, true, false}, {0, true, false}}, []int{cServe, cStatus, cStatus}, fill(6, 7))
+		scriptedCaseB(w, kind, true, 2, 13, []rdEv{{0, true, false}}, []int{cServe, cStatus}, fill(6, 7))
 		// c20_live_restart_cut_refuted: the second fault hits the restarted connection while it discards
 		scriptedCase(w, kind, 1, 5, []rdEv{{2, false, false}, {1, true, false}, {1, true, false}}, nil, fill(6, 2))
 		scriptedCase(w, kind, 1, 13, []rdEv{{6, false, false}, {0, true, false}, {3, false, false}, {0, true, false}}, nil, fill(14, 6))
